@@ -34,7 +34,7 @@ def hop(dx: float):
     z = spec.get_static_trap(zone_id="traps")
     s = z[0:2, 1]
     action.set_loc(s)
-    action.turn_on([0, 1], [0])
+    action.turn_on([1, 0], [0])
     action.move(grid.shift(s, dx, 0.0))
     action.turn_off([0, 1], [0])
 
